@@ -37,14 +37,19 @@ struct C09 : Prop {
 		std::vector<N> ns; for (auto &b : w.boards) ns.push_back({b.addr, b.present, b.is_iface()});
 		int nsteps = (int) r.range(4, thorough ? 50 : 25);
 		int p_conc = conc_heavy ? 45 : 8;
+		int relogin_next = -1;
 		for (int i = 0; i < nsteps; i++) {
 			J ph = J::obj();
-			uint64_t x = r.below(100);
-			if ((int) r.below(100) < p_conc && !w.trains.empty() && !ids.tos.empty()) {
+			uint64_t x = relogin_next >= 0 ? 99 : r.below(100);
+			// (track outputs that are on the bus right now: a board that is absent - whether the host knows or not - answers nothing,
+			// its commands pile up behind the response budget)
+			std::vector<std::string> tos_now;
+			for (size_t q = 0; q < w.boards.size() && q < ns.size(); q++) if (ns[q].present && w.boards[q].track_output()) tos_now.push_back(w.boards[q].id);
+			if (relogin_next < 0 && (int) r.below(100) < p_conc && !w.trains.empty() && !tos_now.empty()) {
 				// concurrent train commands (same train, mostly functions of one group): the downlink must be explainable by ONE serial order
 				// (one track output per phase: the wire order is the serial order only per node - the response budget may defer one node's messages)
 				const cfg::Train &t = w.trains[r.below(w.trains.size())];
-				const std::string to_id = ids.tos[r.below(ids.tos.size())];
+				const std::string to_id = tos_now[r.below(tos_now.size())];
 				J tasks = J::arr();
 				int nt = (int) r.range(2, conc_heavy ? 4 : 3);
 				for (int k = 0; k < nt; k++) {
@@ -74,10 +79,16 @@ struct C09 : Prop {
 				e.set("data", pc::jarr({t.addrl, t.addrh, 3, (int) r.below(64), (int) r.byte(), (int) r.below(32), (int) r.byte(), (int) r.byte(), (int) r.byte()}));
 				ev.push(e); ph.set("bus", ev);
 			} else {
-				size_t k = r.below(ns.size());
+				size_t k = relogin_next >= 0 ? (size_t) relogin_next : r.below(ns.size());
+				relogin_next = -1;
 				if (ns[k].addr.empty() || ns[k].iface) continue;
 				J ev = J::arr(); J e = J::obj(); e.set("at_us", 0); e.set("node", pc::jaddr(ns[k].addr));
-				if (ns[k].present) { e.set("topo", "lost"); ns[k].present = false; }
+				if (ns[k].present) {
+					e.set("topo", "lost"); ns[k].present = false;
+					// the notice itself is lost on the bus: the host still believes the board connected when it logs in again (possibly elsewhere)
+					// (it logs in again in the very next step: an absent board that the host keeps commanding answers nothing and its requests pile up)
+					if (r.chance(200)) { J fs = J::arr(); J f = J::obj(); f.set("kind", "lose"); fs.push(f); e.set("faults", fs); relogin_next = (int) k; }
+				}
 				else {
 					e.set("topo", "new");
 					if (r.chance(500)) { std::vector<uint8_t> na = {(uint8_t) r.range(70, 120)}; bool used = false; for (auto &y : ns) if (y.addr == na) used = true; if (!used) { e.set("as", pc::jaddr(na)); ns[k].addr = na; } }
@@ -102,12 +113,12 @@ struct C09 : Prop {
 	size_t wire_pos = 0, frame_pos = 0;
 	J last_state;
 	bool have_last = false, armed = false;
-	uint64_t accepted = 0, refused = 0, relogin_cmds = 0, manual_bits_used = 0, state_checks = 0;
+	uint64_t held_by_budget = 0, accepted = 0, refused = 0, relogin_cmds = 0, manual_bits_used = 0, state_checks = 0;
 	std::set<std::string> relogged, manual_trains;
 
 	void attach(Engine &e) override {
 		model = sm::Model(); model.init(cfg::from_json(e.plan["world"]));
-		wire_pos = frame_pos = 0; have_last = false; armed = false; accepted = refused = relogin_cmds = manual_bits_used = state_checks = 0; relogged.clear(); manual_trains.clear();
+		wire_pos = frame_pos = 0; have_last = false; armed = false; held_by_budget = accepted = refused = relogin_cmds = manual_bits_used = state_checks = 0; relogged.clear(); manual_trains.clear();
 		on_wire = nullptr; conc_phases = conc_overlaps = conc_msgs = 0;
 	}
 	void before_stop(Engine &, int) override { armed = false; }
@@ -268,6 +279,17 @@ struct C09 : Prop {
 				if (x.estop && got[i].type == MSG_CS_DRIVE && got[i].data.size() == 9 && x.msgs[i].data.size() == 9) { auto a = got[i].data, b = x.msgs[i].data; a[4] &= 0x7F; b[4] &= 0x7F; if (a != b || got[i].addr != x.msgs[i].addr) same = false; }
 				else if (pc::msg_key(got[i]) != pc::msg_key(x.msgs[i])) same = false;
 			}
+			// a board the host believes connected (its MSG_NODE_LOST was lost on the bus) answers nothing: once the unanswered requests use up the
+			// 48-byte response budget of its address, further commands are rightly held back instead of being transmitted
+			if (!same && got.empty() && !x.msgs.empty()) {
+				const std::vector<uint8_t> &ad = x.msgs[0].addr;
+				uint64_t last_up = 0; for (auto &f : e.bus.done) if (!f.corrupted) for (auto &m : f.msgs) if (m.addr == ad) last_up = std::max(last_up, f.last_read_step);
+				int outstanding = 0; for (size_t i = 0; i < o.wire_before; i++) if (e.bus.wire[i].msg.addr == ad && e.bus.wire[i].step > last_up) outstanding += pc::resp_info(e.bus.wire[i].msg.type).size;
+				if (pc::resp_info(x.msgs[0].type).size > 0 && outstanding + pc::resp_info(x.msgs[0].type).size > 48) {
+					same = true; held_by_budget++;
+					for (auto &m : x.msgs) model.apply_downlink(m);     // the optimistic state does not wait for the transmission
+				}
+			}
 			if (!same) {
 				std::string d = call + " returned 0; expected on the wire [";
 				for (auto &m : x.msgs) d += pc::msg_key(m) + " "; d += "] but got [";
@@ -396,7 +418,7 @@ struct C09 : Prop {
 		f.set("nontrivial", (relogin_cmds > 0 || manual_bits_used > 0) && refused > 0);
 		f.set("shape", (long long) (pc::shape_hash(e.plan) >> 1));
 		J p = J::obj(); p.set("commands_accepted", (long long) accepted); p.set("commands_refused", (long long) refused); p.set("commands_to_relogged_board", (long long) relogin_cmds);
-		p.set("function_commands_after_manual_report", (long long) manual_bits_used); p.set("state_comparisons", (long long) state_checks);
+		p.set("function_commands_after_manual_report", (long long) manual_bits_used); p.set("state_comparisons", (long long) state_checks); p.set("commands_held_back_by_the_response_budget", (long long) held_by_budget);
 		p.set("concurrent_command_phases", (long long) conc_phases); p.set("concurrent_phases_with_overlapping_calls", (long long) conc_overlaps); p.set("concurrent_messages_matched", (long long) conc_msgs);
 		f.set("probes", p);
 	}
